@@ -52,3 +52,26 @@ Fixpoint upto_eof (reads : list body_read) : list body_read :=
   | [] => []
   | (d, eof) :: rs => if eof then [(d, eof)] else (d, eof) :: upto_eof rs
   end.
+
+(* ---------- a body source that may fail ---------- *)
+Inductive rstatus := ROk | REof | RErr.    (* nil error / io.EOF / any other error, reported with the bytes *)
+
+(* writeRequestBody with a failing source: a read that reports an error other than io.EOF ends the
+   upload at once (its bytes are not written, the caller resets the stream); second component:
+   the body was completed (END_STREAM sent) *)
+Fixpoint h2_upload (reads : list (bytes * rstatus)) (alw : list nat) : list frame * bool :=
+  match reads with
+  | [] => ([([], true)], true)
+  | (d, RErr) :: _ => ([], false)
+  | (d, REof) :: _ => (h2_body_frames [(d, true)] alw, true)
+  | (d, ROk) :: rs =>
+      let '(fs, alw') := split_remain (length d) d false alw in
+      let '(gs, done) := h2_upload rs alw' in (fs ++ gs, done)
+  end.
+
+(* the bytes of the reads before the first one that is not ROk *)
+Fixpoint ok_prefix (reads : list (bytes * rstatus)) : bytes :=
+  match reads with
+  | (d, ROk) :: rs => d ++ ok_prefix rs
+  | _ => []
+  end.
